@@ -20,6 +20,7 @@ R06.6  exports: wrappers are named <module>_<escaped name>, forward all paramete
 R06.7  allocators: wasmMemoryAllocate / wasmTableAllocate (partially evaluated with symbolic operands, shared and not) record the
        declared minimum as the current size, the declared maximum, the shared flag, and obtain zero-filled storage of the
        recorded byte size
+R06.10 the set-up emitters never read past a module array while writing a valid module (strict bounds in emit_text)
 """
 import re
 
